@@ -606,6 +606,11 @@ class Reaction(Object):
             new_gene_names = set()
         old_genes = self._genes.copy()
         new_genes = set()
+        if context:
+            # Leaving the context puts back exactly what was there: the gene set
+            # and which of these genes listed the reaction.
+            listing = {g for g in old_genes if self in g._reaction}
+            context(partial(self._reset_genes, old_genes, listing))
         if self._model is None:
             self._genes = {Gene(i) for i in new_gene_names}
         else:
@@ -636,15 +641,11 @@ class Reaction(Object):
         # Make the genes aware that it is involved in this reaction
         for g in self._genes:
             self._associate_gene(g)
-            if context:
-                context(partial(self._dissociate_gene, g))
 
         # make the old genes aware they are no longer involved in this reaction
         for g in old_genes.difference(new_genes):
             try:
                 self._dissociate_gene(g)
-                if context:
-                    context(partial(self._associate_gene, g))
             except KeyError:
                 warn(f"could not remove old gene {g.id} from reaction {self.id}")
             if g in self._genes:  # if an old gene is still a new gene
@@ -1508,6 +1509,23 @@ class Reaction(Object):
         self._genes.add(cobra_gene)
         cobra_gene._reaction.add(self)
         cobra_gene._model = self._model
+
+    def _reset_genes(self, genes: set, listing: set) -> None:
+        """Put back a former gene set (used when a context is left).
+
+        Parameters
+        ----------
+        genes : set of cobra.core.Gene.Gene
+            The genes the reaction had.
+        listing : set of cobra.core.Gene.Gene
+            Those of `genes` that listed the reaction.
+
+        """
+        for gene in self._genes:
+            gene._reaction.discard(self)
+        self._genes = set(genes)
+        for gene in listing:
+            gene._reaction.add(self)
 
     def _dissociate_gene(self, cobra_gene: Gene) -> None:
         """Dissociates a cobra.Gene object with a cobra.Reaction.
